@@ -86,7 +86,7 @@ class SerDomain(Domain):
     def refine_compare(self, node, op, lexpr, l, rexpr, r, branch, state):
         if l == Sym("value") or r == Sym("value"):
             ident = isinstance(op, (ast.Is, ast.IsNot))
-            return state.set("value_test", state.get("value_test", ()) + ((node_src(node), ident, branch),))
+            return state.set("#value_test", state.get("#value_test", ()) + ((node_src(node), ident, branch),))
         return state
 
     def binop(self, node, l, r, state):
@@ -241,7 +241,7 @@ def run(chk):
                 r2.fail("_python_memcache_serializer:result-shape:%s" % tag, "for type %s the serializer returns %s, not (data, constant flags)" % (tag, v), fn=ser)
                 continue
             enc, fl = v.items[0], v.items[1].v
-            vt = s.get("value_test", ())
+            vt = s.get("#value_test", ())
             nonident = [x for x in vt if not x[1]]
             vnote = (" (this path is selected by `%s`, an equality/ordering test on the value rather than on its exact type: values that merely compare equal - 0.0, 1.0, Decimal(1), a subclass instance - take it too)" % nonident[0][0]) if nonident else ""
             r1.expect(0 <= fl < 2**16, "flags %d for %s within 16 bits" % (fl, tag), "serde:flags-out-of-range:%s" % tag, "flags %d produced for %s do not fit 16 bits" % (fl, tag), fn=ser)
